@@ -1,31 +1,29 @@
 (** * Fixed: executable model of cohdl.std SFixed / UFixed on compile-time constants
-    (/repo/cohdl/std/_fixed.py) and the SPECIFICATION of property C19.
+    (/repo/cohdl/std/_fixed.py, the tree that contains the C19 fixes) and the
+    SPECIFICATION of property C19.
 
     A fixed point object is [(left, right, raw)] : the format [left:right]
     (width = left - right + 1 >= 1) and the integer read from the underlying
     Signed / Unsigned vector.  The represented number is [raw * 2^right].
 
-    PART 1 (model) follows the code AS WRITTEN, including the places where it
-    raises: every Python exception is an explicit [Err] value carrying the
-    class the harness worker (c19_worker.classify) assigns to it.  The model
-    goes through the same bit vector primitives as the code ([lsb(rest=)],
-    [msb(rest=)], indexing, [.signed], [Signed.resize], [+], [Value[T](x)]).
+    PART 1 (model) follows the code AS WRITTEN, leaf by leaf, including the
+    places where it raises: every Python exception is an explicit [Err] value
+    carrying the class the harness worker (c19_worker.classify) assigns to it.
+    The model goes through the same bit vector primitives as the code
+    ([lsb(rest=)], [lsb(n)], [msb(rest=)], [msb(n)], indexing, [.signed],
+    [Signed.resize], [+], [==], [Value[T](x)], [choose_first]).
 
     PART 2 (spec) is the property's own statement on scaled integers: round
     (floor | nearest, ties to even) THEN overflow (wrap | saturate); exact
     results for + - *; numeric equality; value preserving constructors.
 
-    PART 3 is the model of the tree after the proposed fix
-    (/verif/seeded/_proposed_fixes/C19_fix.diff); it is what the correspondence
-    has to be switched to once that patch is in /repo (see [resize] below).
-
-    Not modelled: IEEE binary64.  Python floats and the float division
-    [int(val / 2**exp)] of the constructor are exact rational arithmetic here;
-    a number is passed as (mantissa, exponent) meaning m * 2^e.  The
-    correspondence therefore only feeds numbers whose quotient is exact in
-    binary64 (|m * 2^(e-exp)| < 2^53); larger integers are checked against the
-    spec directly by the harness.  Signals / hardware evaluation of the same
-    methods are not modelled either (constants only). *)
+    Not modelled: IEEE binary64.  A Python number reaches the model as
+    (mantissa, exponent) meaning m * 2^e; [_adjust_val] is exact rational
+    arithmetic in the code as well (fractions.Fraction), but the range test
+    [self.min() <= val <= self.max()] uses floats for negative exponents, so
+    the correspondence only feeds numbers and formats on which those floats
+    are exact.  Signals / hardware evaluation of the same methods are not
+    modelled either (constants only). *)
 From Coq Require Import ZArith List Bool Lia.
 Import ListNotations.
 Local Open Scope Z_scope.
@@ -86,6 +84,11 @@ Definition msbw (v : vec) (nw : Z) : res vec :=
   let '(w, u) := v in
   if (1 <=? nw) && (nw <=? w) then Ok (nw, u / p2 (w - nw)) else Err ESubvector.
 
+(** [BitVector.lsb(n)] *)
+Definition lsbw (v : vec) (nw : Z) : res vec :=
+  let '(w, u) := v in
+  if (1 <=? nw) && (nw <=? w) then Ok (nw, u mod p2 nw) else Err ESubvector.
+
 (** [v[i]] *)
 Definition bitz (u i : Z) : bool := (u / p2 i) mod 2 =? 1.
 Definition vbit (v : vec) (i : Z) : res bool :=
@@ -143,7 +146,7 @@ Definition wfb (k : kind) (x : fx) : bool :=
   (1 <=? l - r + 1) && (min_raw k (l - r + 1) <=? raw) && (raw <=? max_raw k (l - r + 1)).
 
 (* ------------------------------------------------------------------------- *)
-(** ** PART 1: resize_fn as coded *)
+(** ** PART 1: resize_fn as coded (after the C19 fix commits) *)
 
 (** the [do_round] expression, with Python's short circuit evaluation order
     (an index error is raised only if the subexpression is evaluated) *)
@@ -170,6 +173,64 @@ Definition fin_u (l r : Z) (x : vec) : res fx :=
 Definition choose {A} (c1 : bool) (a : A) (c2 : bool) (b : A) (d : A) : A :=
   if c1 then a else if c2 then b else d.
 
+(** the subtree [if selfleft > left:] of SFixed.resize_fn; [Wt >= 1] and
+    [sl > l] hold at both call sites *)
+Definition resize_s_gt (x : fx) (l r : Z) (rs : rstyle) (os : ostyle) : res fx :=
+  let '(sl, sr, raw) := x in
+  let W := sl - sr + 1 in
+  let v := vecS W raw in
+  let Wt := l - r + 1 in
+  let overflow := sl - l in
+  match os with
+  | Wrap =>
+      if sr >=? r then
+        let zeros := sr - r in
+        if overflow >=? W then z <- mkS Wt 0 ;; fin_s l r z
+        else y <- lsbr v overflow ;; z <- s_resize y (vw y + zeros) zeros ;; fin_s l r z
+      else
+        let cutoff := r - sr in
+        match rs with
+        | Truncate =>
+            y <- lsbr v overflow ;; y <- msbr y cutoff ;; z <- s_conv Wt y ;; fin_s l r z
+        | Round =>
+            dr <- do_round v cutoff ;;
+            y <- lsbr v overflow ;; y <- msbr y cutoff ;;
+            (* (x.signed + do_round).lsb(Result._width).signed *)
+            y <- lsbw (s_add y (2, dr)) Wt ;;
+            z <- s_conv Wt y ;; fin_s l r z
+        end
+  | Saturate =>
+      sign <- vbit v (W - 1) ;;
+      flags <- (if overflow >=? W
+                then Ok (negb sign && nonzero v, sign)
+                else y <- lsbr v 1 ;; ob <- msbw y overflow ;;
+                     Ok (negb sign && nonzero ob, sign && negb (all_ones ob))) ;;
+      let '(does_overflow, does_underflow) := flags in
+      if sr >=? r then
+        let zeros := sr - r in
+        d <- (if W <=? overflow then mkS Wt 0
+              else y <- lsbr v overflow ;; s_resize y Wt zeros) ;;
+        mn <- mkS Wt (- p2 (Wt - 1)) ;; mx <- mkS Wt (p2 (Wt - 1) - 1) ;;
+        z <- s_conv Wt (choose does_underflow mn does_overflow mx d) ;; fin_s l r z
+      else
+        let cutoff := r - sr in
+        match rs with
+        | Truncate =>
+            mn <- mkS Wt (- p2 (Wt - 1)) ;; mx <- mkS Wt (p2 (Wt - 1) - 1) ;;
+            y <- lsbr v overflow ;; d <- msbr y cutoff ;;
+            z <- s_conv Wt (choose does_underflow mn does_overflow mx d) ;; fin_s l r z
+        | Round =>
+            dr <- do_round v cutoff ;;
+            y <- lsbr v overflow ;; truncated <- msbr y cutoff ;;
+            mx0 <- mkS Wt (p2 (Wt - 1) - 1) ;;
+            (* truncated == Signed[W].max() : Signed.__eq__ compares to_int() *)
+            let overflow_or_full := does_overflow || (sv truncated =? sv mx0) in
+            mn <- mkS Wt (- p2 (Wt - 1)) ;; mx <- mkS Wt (p2 (Wt - 1) - 1) ;;
+            d <- lsbw (s_add truncated (2, dr)) Wt ;;
+            z <- s_conv Wt (choose does_underflow mn overflow_or_full mx d) ;; fin_s l r z
+        end
+  end.
+
 Definition resize_s (x : fx) (l r : Z) (rs : rstyle) (os : ostyle) : res fx :=
   let '(sl, sr, raw) := x in
   let W := sl - sr + 1 in
@@ -177,67 +238,66 @@ Definition resize_s (x : fx) (l r : Z) (rs : rstyle) (os : ostyle) : res fx :=
   if (sl =? l) && (sr =? r) then Ok (l, r, raw)
   else
   let Wt := l - r + 1 in
-  if Wt <? 1 then Err EAssert            (* SFixed[left:right] with left < right *)
+  if Wt <? 1 then Err EAssert            (* REJECTED BY THE CODE: SFixed[left:right] with left < right *)
   else
-  if sl >? l then
-    let overflow := sl - l in
-    match os with
-    | Wrap =>
-        if sr >=? r then
-          let zeros := sr - r in
-          if overflow >=? W then z <- mkS Wt 0 ;; fin_s l r z
-          else y <- lsbr v overflow ;; z <- s_resize y (vw y + zeros) zeros ;; fin_s l r z
-        else
-          let cutoff := r - sr in
-          match rs with
-          | Truncate =>
-              y <- lsbr v overflow ;; y <- msbr y cutoff ;; z <- s_conv Wt y ;; fin_s l r z
-          | Round =>
-              dr <- do_round v cutoff ;;
-              y <- lsbr v overflow ;; y <- msbr y cutoff ;;
-              z <- s_conv Wt (s_add y (2, dr)) ;; fin_s l r z
-          end
-    | Saturate =>
-        sign <- vbit v (W - 1) ;;
-        let obc := Z.min overflow (W - 1) in
-        y <- lsbr v 1 ;; ob <- msbw y obc ;;
-        let does_overflow := negb sign && nonzero ob in
-        let does_underflow := sign && negb (all_ones ob) in
-        if sr >=? r then
-          let zeros := sr - r in
-          d <- (if W <=? overflow then mkS Wt 0
-                else y <- lsbr v overflow ;; s_resize y Wt zeros) ;;
-          mn <- mkS Wt (- p2 (Wt - 1)) ;; mx <- mkS Wt (p2 (Wt - 1) - 1) ;;
-          z <- s_conv Wt (choose does_underflow mn does_overflow mx d) ;; fin_s l r z
-        else
-          let cutoff := r - sr in
-          match rs with
-          | Truncate =>
-              mn <- mkS Wt (- p2 (Wt - 1)) ;; mx <- mkS Wt (p2 (Wt - 1) - 1) ;;
-              y <- lsbr v overflow ;; d <- msbr y cutoff ;;
-              z <- s_conv Wt (choose does_underflow mn does_overflow mx d) ;; fin_s l r z
-          | Round =>
-              dr <- do_round v cutoff ;;
-              y <- lsbr v (overflow + 1) ;; sel <- msbr y cutoff ;;
-              let overflow_or_full := does_overflow || all_ones sel in
-              mn <- mkS Wt (- p2 (Wt - 1)) ;; mx <- mkS Wt (p2 (Wt - 1) - 1) ;;
-              y <- lsbr v overflow ;; y <- msbr y cutoff ;;
-              let d := s_add y (2, dr) in
-              z <- s_conv Wt (choose does_underflow mn overflow_or_full mx d) ;; fin_s l r z
-          end
-    end
+  if sl >? l then resize_s_gt x l r rs os
   else
     if sr >=? r then z <- s_resize v Wt (sr - r) ;; fin_s l r z
     else
-      let cutoff := r - sr in
-      match rs with
-      | Truncate =>
-          y <- msbr v cutoff ;; y <- s_resize y Wt 0 ;; z <- s_conv Wt y ;; fin_s l r z
-      | Round =>
-          dr <- do_round v cutoff ;;
-          y <- msbr v cutoff ;; y <- s_resize y Wt 0 ;;
-          z <- s_conv Wt (s_add y (2, dr)) ;; fin_s l r z
-      end.
+      (* SFixed[left + 1 : selfright](raw=self._val.resize(left + 2 - selfright)).resize_fn(...):
+         the nested call finds selfleft' = left + 1 > left (so neither its identity test
+         nor its own [else] branch is reachable) and the same Result class *)
+      y <- s_resize v (l + 2 - sr) 0 ;;
+      x' <- fin_s (l + 1) sr y ;;
+      resize_s_gt x' l r rs os.
+
+Definition resize_u_gt (x : fx) (l r : Z) (rs : rstyle) (os : ostyle) : res fx :=
+  let '(sl, sr, raw) := x in
+  let W := sl - sr + 1 in
+  let v := vecU W raw in
+  let Wt := l - r + 1 in
+  let overflow := sl - l in
+  match os with
+  | Wrap =>
+      if sr >=? r then
+        let zeros := sr - r in
+        if overflow >=? W then z <- mkU Wt 0 ;; fin_u l r z
+        else y <- lsbr v overflow ;; z <- u_resize y (vw y + zeros) zeros ;; fin_u l r z
+      else
+        let cutoff := r - sr in
+        match rs with
+        | Truncate =>
+            y <- lsbr v overflow ;; y <- msbr y cutoff ;; z <- u_conv Wt y ;; fin_u l r z
+        | Round =>
+            dr <- do_round v cutoff ;;
+            y <- lsbr v overflow ;; y <- msbr y cutoff ;;
+            z <- u_conv Wt (u_add y (1, dr)) ;; fin_u l r z
+        end
+  | Saturate =>
+      ob <- msbw v (Z.min overflow W) ;;
+      let does_overflow := nonzero ob in
+      if sr >=? r then
+        let zeros := sr - r in
+        d <- (if W <=? overflow then mkU Wt 0
+              else y <- lsbr v overflow ;; u_resize y Wt zeros) ;;
+        mx <- mkU Wt (p2 Wt - 1) ;;
+        z <- u_conv Wt (if does_overflow then mx else d) ;; fin_u l r z
+      else
+        let cutoff := r - sr in
+        match rs with
+        | Truncate =>
+            mx <- mkU Wt (p2 Wt - 1) ;;
+            y <- lsbr v overflow ;; d <- msbr y cutoff ;;
+            z <- u_conv Wt (if does_overflow then mx else d) ;; fin_u l r z
+        | Round =>
+            dr <- do_round v cutoff ;;
+            y <- lsbr v overflow ;; sel <- msbr y cutoff ;;
+            let overflow_or_full := does_overflow || all_ones sel in
+            mx <- mkU Wt (p2 Wt - 1) ;;
+            let d := u_add sel (1, dr) in
+            z <- u_conv Wt (if overflow_or_full then mx else d) ;; fin_u l r z
+        end
+  end.
 
 Definition resize_u (x : fx) (l r : Z) (rs : rstyle) (os : ostyle) : res fx :=
   let '(sl, sr, raw) := x in
@@ -246,63 +306,15 @@ Definition resize_u (x : fx) (l r : Z) (rs : rstyle) (os : ostyle) : res fx :=
   if (sl =? l) && (sr =? r) then Ok (l, r, raw)
   else
   let Wt := l - r + 1 in
-  if Wt <? 1 then Err EAssert
+  if Wt <? 1 then Err EAssert            (* REJECTED BY THE CODE: UFixed[left:right] with left < right *)
   else
-  if sl >? l then
-    let overflow := sl - l in
-    match os with
-    | Wrap =>
-        if sr >=? r then
-          let zeros := sr - r in
-          if overflow >=? W then z <- mkU Wt 0 ;; fin_u l r z
-          else y <- lsbr v overflow ;; z <- u_resize y (vw y + zeros) zeros ;; fin_u l r z
-        else
-          let cutoff := r - sr in
-          match rs with
-          | Truncate =>
-              y <- lsbr v overflow ;; y <- msbr y cutoff ;; z <- u_conv Wt y ;; fin_u l r z
-          | Round =>
-              dr <- do_round v cutoff ;;
-              y <- lsbr v overflow ;; y <- msbr y cutoff ;;
-              z <- u_conv Wt (u_add y (1, dr)) ;; fin_u l r z
-          end
-    | Saturate =>
-        ob <- msbw v overflow ;;
-        let does_overflow := nonzero ob in
-        if sr >=? r then
-          let zeros := sr - r in
-          d <- (if W <=? overflow then mkU Wt 0
-                else y <- lsbr v overflow ;; u_resize y Wt zeros) ;;
-          mx <- mkU Wt (p2 Wt - 1) ;;
-          z <- u_conv Wt (if does_overflow then mx else d) ;; fin_u l r z
-        else
-          let cutoff := r - sr in
-          match rs with
-          | Truncate =>
-              mx <- mkU Wt (p2 Wt - 1) ;;
-              y <- lsbr v overflow ;; d <- msbr y cutoff ;;
-              z <- u_conv Wt (if does_overflow then mx else d) ;; fin_u l r z
-          | Round =>
-              dr <- do_round v cutoff ;;
-              y <- lsbr v overflow ;; sel <- msbr y cutoff ;;
-              let overflow_or_full := does_overflow || all_ones sel in
-              mx <- mkU Wt (p2 Wt - 1) ;;
-              let d := u_add sel (1, dr) in
-              z <- u_conv Wt (if overflow_or_full then mx else d) ;; fin_u l r z
-          end
-    end
+  if sl >? l then resize_u_gt x l r rs os
   else
     if sr >=? r then z <- u_resize v Wt (sr - r) ;; fin_u l r z
     else
-      let cutoff := r - sr in
-      match rs with
-      | Truncate =>
-          y <- msbr v cutoff ;; y <- u_resize y Wt 0 ;; z <- u_conv Wt y ;; fin_u l r z
-      | Round =>
-          dr <- do_round v cutoff ;;
-          y <- msbr v cutoff ;; y <- u_resize y Wt 0 ;;
-          z <- u_conv Wt (u_add y (1, dr)) ;; fin_u l r z
-      end.
+      y <- u_resize v (l + 2 - sr) 0 ;;
+      x' <- fin_u (l + 1) sr y ;;
+      resize_u_gt x' l r rs os.
 
 (** THE model of [resize] as coded, which the correspondence runs against
     (through [run] / [agrees] at the end of this file). *)
@@ -313,7 +325,7 @@ Definition resize (k : kind) (x : fx) (l r : Z) (rs : rstyle) (os : ostyle) : re
   end.
 
 (* ------------------------------------------------------------------------- *)
-(** ** + - * == and the constructors as coded *)
+(** ** + - * == and the constructors *)
 
 Definition to_vec (k : kind) (x : fx) : vec :=
   let '(l, r, raw) := x in
@@ -367,6 +379,8 @@ Definition eq_num (k : kind) (a : fx) (m e : Z) : res bool :=
   c <- ctor_num k l r m e ;; eq_fx k c a.
 
 (** [T(v)] for a Signed (sg = true) or Unsigned vector of width w, value val *)
+Definition k_conv (k : kind) := match k with SFixed => s_conv | UFixed => u_conv end.
+
 Definition ctor_vec (k : kind) (l r : Z) (sg : bool) (w val : Z) : res fx :=
   let W := l - r + 1 in
   if W <? 1 then Err EAssert
@@ -375,8 +389,7 @@ Definition ctor_vec (k : kind) (l r : Z) (sg : bool) (w val : Z) : res fx :=
   match k, sg with
   | SFixed, true =>
       if zeros <? 0 then Err EAssert
-      else _ <- s_resize (vecS w val) W zeros ;;
-           Err EAssert       (* [_qualifier_(raw_type, x)] : Value called with two arguments *)
+      else y <- s_resize (vecS w val) W zeros ;; z <- s_conv W y ;; fin_s l r z
   | SFixed, false =>
       if zeros <? 0 then Err EAssert
       else y <- u_resize (vecU w val) (W - 1) zeros ;;
@@ -394,13 +407,17 @@ Definition ctor_fix (k : kind) (l r : Z) (x : fx) : res fx :=
   let W := l - r + 1 in
   if W <? 1 then Err EAssert
   else if (l =? sl) && (r =? sr) then Ok (l, r, raw)
-  else if l <? sl then Err EAssert
-  else if r >? sr then Err EAssert
+  else if l <? sl then Err EAssert      (* assert self.left() >= val.left() *)
+  else if r >? sr then Err EAssert      (* assert self.right() <= val.right() *)
   else
-    let zeros := r - sr in      (* AS CODED: self.right() - val.right(), which is <= 0 *)
-    if vw (to_vec k x) + zeros >? W then Err EResize
-    else if zeros <? 0 then Err EAssert     (* to_int() * 2**zeros is a float: rejected by BitVector.__init__ *)
-    else z <- k_mk k W (raw * p2 zeros) ;; fin k l r z.
+    y <- k_resize k (to_vec k x) W (sr - r) ;; z <- k_conv k W y ;; fin k l r z.
+
+(** [a == m*2^e] after C19_eq_fix.diff (NOT in /repo): a number that is not a value of
+    the format differs from every object of it *)
+Definition eq_num_eqfix (k : kind) (a : fx) (m e : Z) : res bool :=
+  let '(l, r, raw) := a in
+  let s := Z.min e r in
+  if (m * p2 (e - s)) mod p2 (r - s) =? 0 then eq_num k a m e else Ok false.
 
 (* ------------------------------------------------------------------------- *)
 (** ** PART 2: the specification (scaled integers; value of (l, r, raw) = raw * 2^r) *)
@@ -435,54 +452,6 @@ Definition spec_resize (k : kind) (x : fx) (l r : Z) (rs : rstyle) (os : ostyle)
 Definition scaled (x : fx) (s : Z) : Z := let '(l, r, raw) := x in raw * p2 (r - s).
 
 (* ------------------------------------------------------------------------- *)
-(** ** PART 3: the behaviour after the proposed fix (C19_fix.diff)
-
-    The patch (a) sends [selfleft <= left /\ selfright < right] through the
-    [selfleft > left] tree after extending the source to [left+1 : selfright],
-    (b) drops the carry of the width-2 rounding addend explicitly, (c) tests
-    "any non zero value" when the target lies below the source LSB, (d) lets the
-    rounding overflow only from the largest positive truncated value, (e) passes
-    the vector through [_qualifier_[raw_type](...)] in SFixed(Signed) and (f)
-    computes [zeros = val.right() - self.right()] in T(other format).
-
-    These definitions are NOT a structural rendering of the patched tree: they
-    state its intended behaviour (the spec, with the same rejections as the
-    code).  They exist so that the correspondence can be switched to them once
-    the patch is in /repo ([run_fixed] / [agrees_fixed] below, selected in
-    harness/c19.py by MODEL = "fixed"); they were validated against the patched
-    scratch tree on the same enumerated spaces.  The theorem "resize = spec" is
-    then true by definition and the assurance for resize rests on that
-    correspondence, until the patched tree is modelled leaf by leaf like PART 1. *)
-
-Definition resize_fixed (k : kind) (x : fx) (l r : Z) (rs : rstyle) (os : ostyle) : res fx :=
-  let '(sl, sr, raw) := x in
-  if (sl =? l) && (sr =? r) then Ok (l, r, raw)
-  else if l - r + 1 <? 1 then Err EAssert
-  else Ok (spec_resize k x l r rs os).
-
-Definition ctor_vec_fixed (k : kind) (l r : Z) (sg : bool) (w val : Z) : res fx :=
-  match k, sg with
-  | SFixed, true =>
-      let W := l - r + 1 in
-      if W <? 1 then Err EAssert
-      else if - r <? 0 then Err EAssert
-      else y <- s_resize (vecS w val) W (- r) ;; z <- s_conv W y ;; fin_s l r z
-  | _, _ => ctor_vec k l r sg w val
-  end.
-
-Definition ctor_fix_fixed (k : kind) (l r : Z) (x : fx) : res fx :=
-  let '(sl, sr, raw) := x in
-  let W := l - r + 1 in
-  if W <? 1 then Err EAssert
-  else if (l =? sl) && (r =? sr) then Ok (l, r, raw)
-  else if l <? sl then Err EAssert
-  else if r >? sr then Err EAssert
-  else
-    let zeros := sr - r in
-    if vw (to_vec k x) + zeros >? W then Err EResize
-    else z <- k_mk k W (raw * p2 zeros) ;; fin k l r z.
-
-(* ------------------------------------------------------------------------- *)
 (** ** one entry point for the generated case files *)
 
 Inductive op :=
@@ -503,24 +472,23 @@ Definition out_fx (x : res fx) : out :=
 Definition out_bool (x : res bool) : out :=
   match x with Ok b => VBool b | Err e => VErr e end.
 
-Definition run_with (rsz : kind -> fx -> Z -> Z -> rstyle -> ostyle -> res fx)
-    (cvec : kind -> Z -> Z -> bool -> Z -> Z -> res fx) (cfix : kind -> Z -> Z -> fx -> res fx) (o : op) : out :=
+Definition run_with (eqn : kind -> fx -> Z -> Z -> res bool) (o : op) : out :=
   match o with
-  | OResize k sl sr raw l r rs os => out_fx (rsz k (sl, sr, raw) l r rs os)
+  | OResize k sl sr raw l r rs os => out_fx (resize k (sl, sr, raw) l r rs os)
   | OAdd k l1 r1 a l2 r2 b => out_fx (add k (l1, r1, a) (l2, r2, b))
   | OSub k l1 r1 a l2 r2 b => out_fx (sub k (l1, r1, a) (l2, r2, b))
   | OMul k l1 r1 a l2 r2 b => out_fx (mul k (l1, r1, a) (l2, r2, b))
   | OEq k l1 r1 a l2 r2 b => out_bool (eq_fx k (l1, r1, a) (l2, r2, b))
-  | OEqNum k l r raw m e => out_bool (eq_num k (l, r, raw) m e)
+  | OEqNum k l r raw m e => out_bool (eqn k (l, r, raw) m e)
   | OCtorNum k l r m e => out_fx (ctor_num k l r m e)
-  | OCtorVec k l r sg w val => out_fx (cvec k l r sg w val)
-  | OCtorFix k l r sl sr raw => out_fx (cfix k l r (sl, sr, raw))
+  | OCtorVec k l r sg w val => out_fx (ctor_vec k l r sg w val)
+  | OCtorFix k l r sl sr raw => out_fx (ctor_fix k l r (sl, sr, raw))
   end.
 
 (** the code as it is in /repo *)
-Definition run := run_with resize ctor_vec ctor_fix.
-(** the code after C19_fix.diff *)
-Definition run_fixed := run_with resize_fixed ctor_vec_fixed ctor_fix_fixed.
+Definition run := run_with eq_num.
+(** the code after seeded/_proposed_fixes/C19_eq_fix.diff *)
+Definition run_eqfix := run_with eq_num_eqfix.
 
 Definition err_eqb (a b : err) : bool :=
   match a, b with
@@ -539,4 +507,4 @@ Definition out_eqb (a b : out) : bool :=
 
 (** a generated case: the operation and the result recorded from the real code *)
 Definition agrees (c : op * out) : bool := out_eqb (run (fst c)) (snd c).
-Definition agrees_fixed (c : op * out) : bool := out_eqb (run_fixed (fst c)) (snd c).
+Definition agrees_eqfix (c : op * out) : bool := out_eqb (run_eqfix (fst c)) (snd c).
